@@ -92,3 +92,15 @@ Lemma readers_locked :
   always_under "server.userPanel.isActive" usersM (is_access users) = true
   /\ always_under "server.ActiveUser.NumSession" sessionsM (is_access sessions) = true.
 Proof. split; vm_compute; reflexivity. Qed.
+
+(* who removes: a user record leaves the table only in TerminateActiveUser (TD1), a session
+   leaves its record only in CloseSession / closeAllSessions (C1, TC1), the usage queue is
+   emptied only by commitUpdate (M1) - the ledger theorems of C16 and the ownership theorems of
+   C17 count on nothing else forgetting an entry.  None of the three maps is handed on as a value. *)
+Lemma panel_entries_removed_only_by_their_steps :
+  removed_only_in "server." users ["server.userPanel.TerminateActiveUser"] = true
+  /\ removed_only_in "server." sessions ["server.ActiveUser.CloseSession"; "server.ActiveUser.closeAllSessions"] = true
+  /\ removed_only_in "server." queue ["server.userPanel.commitUpdate"] = true
+  /\ never_aliased "server." users = true /\ never_aliased "server." sessions = true
+  /\ never_aliased "server." queue = true /\ deletes_are_on_fields "server." = true.
+Proof. repeat split; vm_compute; reflexivity. Qed.
